@@ -221,6 +221,11 @@ func (prop) Generate(rng *sim.Rng, tier string, runIndex int) driver.Scenario {
 	if rng.Intn(8) == 0 {
 		sc.Debris = append(sc.Debris, []string{"temp", "extract", "extracttemp", "lock"}[rng.Intn(4)])
 	}
+	if sc.Kind == "wasi" && rng.Intn(4) == 0 {
+		// the SDK's parent directory is long-lived: it may hold another release
+		// or the rest of a half-removed copy, without the wanted sub-directory
+		sc.Debris = append(sc.Debris, "populated")
+	}
 	cfg := sim.Config{MaxSteps: 20000, LiveSteps: 20000}
 	switch rng.Intn(4) {
 	case 0, 1:
@@ -490,6 +495,9 @@ func (prop) Run(scx driver.Scenario, ch *sim.Choices, keep bool) *driver.Result 
 			os.MkdirAll(dst+".extract.temp/old", 0755)
 		case "lock":
 			os.WriteFile(dst+".lock", nil, 0644)
+		case "populated":
+			os.MkdirAll(dst+"/older-release/bin", 0755)
+			os.WriteFile(dst+"/older-release/bin/tool", []byte("older"), 0644)
 		}
 	}
 	kl, want, wantDirs := classify(sc)
@@ -565,6 +573,12 @@ func (prop) Run(scx driver.Scenario, ch *sim.Choices, keep bool) *driver.Result 
 		return under(dst, p)
 	}
 	published := false
+	// what a request looks at to decide "already there": the destination, or for the
+	// WASI SDK the SDK's own directory inside a long-lived parent
+	pubPath := dst
+	if sc.Kind == "wasi" {
+		pubPath = filepath.Join(dst, fetchrt.WasiSubdir)
+	}
 	verify := func() string {
 		// complete = every expected file and directory is there with the archived bytes
 		var names []string
@@ -595,7 +609,7 @@ func (prop) Run(scx driver.Scenario, ch *sim.Choices, keep bool) *driver.Result 
 	}
 	viol := ""
 	w.OnMutate = func(task int, op, p string) {
-		if published && under(p, dst) && viol == "" {
+		if published && under(p, pubPath) && viol == "" {
 			viol = fmt.Sprintf("published-destination-modified|task %d: %s %s after the destination had been published", task, op, w.Rel(p))
 		}
 	}
@@ -608,7 +622,7 @@ func (prop) Run(scx driver.Scenario, ch *sim.Choices, keep bool) *driver.Result 
 		}
 		if !published && w.Dirty {
 			w.Dirty = false
-			if _, err := os.Lstat(dst); err == nil {
+			if _, err := os.Lstat(pubPath); err == nil {
 				published = true
 				s.Probe("destination-published")
 				if checkable {
@@ -728,7 +742,7 @@ func (prop) Run(scx driver.Scenario, ch *sim.Choices, keep bool) *driver.Result 
 		}
 	}
 	if cls == "" {
-		_, derr := os.Lstat(dst)
+		_, derr := os.Lstat(pubPath)
 		for i, o := range outs {
 			if !o.returned {
 				continue
